@@ -21,7 +21,7 @@ def slice_of(src, sm):
     return src[starts[bl - 1] + bc - 1: starts[el - 1] + ec - 1]
 
 
-SCAN = re.compile(r"""(#[^\n]*)|([rf]?\"\"\"(?:\\.|[^\\])*?\"\"\"|[rf]?'(?:\\.|[^'\\\n])*'|[rf]?"(?:\\.|[^"\\\n])*")|([A-Za-z_]\w*)|(\d[\d.]*)""", re.S)
+SCAN = re.compile(r"""(#[^\n]*)|([rf]?\"\"\"(?:\\.|[^\\])*?\"\"\"|[rf]?'''(?:\\.|[^\\])*?'''|[rf]?'(?:\\.|[^'\\\n])*'|[rf]?"(?:\\.|[^"\\\n])*")|([A-Za-z_]\w*)|(0[xX][0-9a-fA-F]+|\d[\d.]*(?:[eE][-+]?\d+)?)""", re.S)
 
 
 def named_tokens_of_text(text, lexer=None, TokenTypes=None):
@@ -36,6 +36,26 @@ def named_tokens_of_text(text, lexer=None, TokenTypes=None):
     return out
 
 
+def same_tokens(got, want):
+    """slice tokens vs node tokens, up to two things the grammar does: a quoted annotation ('Box[Item]') is held in the tree by
+    the tokens of its content, and the keywords of Literal[...] and of `X: TypeAlias = ...` are anonymous terminals that the tree does not keep"""
+    i = j = 0
+    while i < len(got):
+        if j < len(want) and got[i] == want[j]:
+            i, j = i + 1, j + 1
+            continue
+        if got[i][:1] in '\'"' and got[i][:3] not in ("'''", '"""'):
+            inner = named_tokens_of_text(got[i][1:-1])
+            if inner and want[j:j + len(inner)] == inner:
+                i, j = i + 1, j + len(inner)
+                continue
+        if got[i] in ('Literal', 'TypeAlias'):
+            i += 1
+            continue
+        return False
+    return j == len(want)
+
+
 def named_values(values):
     out = []
     for v in values:
@@ -44,7 +64,7 @@ def named_values(values):
         elif re.fullmatch(r'[A-Za-z_]\w*', v):
             if v not in keyword.kwlist:
                 out.append(v)
-        elif re.fullmatch(r'[0-9][0-9.]*', v) or (v[:1] in '\'"' or v[:2] in ("r'", 'r"', "f'", 'f"')):
+        elif re.fullmatch(r'0[xX][0-9a-fA-F]+|[0-9][0-9.]*(?:[eE][-+]?[0-9]+)?', v) or (v[:1] in '\'"' or v[:2] in ("r'", 'r"', "f'", 'f"')):
             out.append(v)
     return out
 
@@ -111,8 +131,17 @@ def run(ctx: Ctx) -> None:
     open('c16mods/__init__.py', 'w').close()
     nmods = ctx.n(10, 200) * scale
     checked = 0
-    for i in range(nmods):
-        src = progen.gen_program(rnd, rnd.randint(1, 3)).src
+    import shapes
+    fixed_srcs = [v for k, v in shapes.ALL.items() if k not in ('shape_uses', 'shape_openblock')]     # decorated functions and classes, properties, generic bases, docstrings
+    for i in range(nmods + len(fixed_srcs)):
+        src = fixed_srcs[i - nmods] if i >= nmods else progen.gen_program(rnd, rnd.randint(1, 3)).src
+        lead = rnd.random()
+        if lead < .2:
+            src = '\n\n' + src                          # the text of the file, not a normalised copy of it, is what spans refer to
+        elif lead < .35:
+            src = '\n# header\n\n' + src
+        elif lead < .45:
+            src = src + '\n\n'
         if rnd.random() < .5:
             # a multi-line expression and a comment, to get spans over several lines
             src += '\ndef extra_%d(a: int, b: int) -> int:\n\t# note\n\treturn (a +\n\t\tb * 2)\n' % i
@@ -147,7 +176,7 @@ def run(ctx: Ctx) -> None:
                 want = named_values(n._values())
                 got = named_tokens_of_text(text, lexer, TokenTypes)
                 ctx.case((name, n.full_path), len(want) > 1)
-                if got != want:
+                if not same_tokens(got, want):
                     bad = ('span-tokens:' + type(n).__name__, 'the tokens of the source region of a node are not the node\'s tokens', dict(node=n.full_path, span=span_tuple(sm), slice=text[:200], slice_tokens=got[:20], node_tokens=want[:20]))
                     break
                 try:
